@@ -133,8 +133,6 @@ Section Step2.
   Proof.
     intros kk k v x Hk Hkk H Hd. unfold dict_value in H.
     destruct v as [| | | |s|l|members]; try discriminate.
-    - destruct s; [|discriminate]. inversion H. reflexivity.
-    - destruct l; [|discriminate]. inversion H. reflexivity.
     - destruct (mapM (dict_member pk1 kk k) members) as [l'|] eqn:E; [|discriminate]. cbn [bind] in H.
       inversion H. subst x. apply mapM_Forall2 in E.
       assert (Hm : forall b, In b l' -> exists w, pk1 kk (JStr (fst b)) = Ok w
